@@ -48,9 +48,17 @@ def keysArg? (kind : String) (ks : List Sexp) : Option Key.KeysArg :=
   | "other" => some .other
   | _ => none
 
-def keyOutsToSexp : Option (List Key.KeyOut) → Sexp
-  | some l => tagged "ok" (l.map keyOutToSexp)
-  | none => .atom "err"
+def keyErrToSexp : Key.KeyErr → Sexp
+  | .runtimeError => .atom "err:RuntimeError"
+  | .typeError => .atom "err:TypeError"
+
+def keyOutsToSexp : Except Key.KeyErr (List Key.KeyOut) → Sexp
+  | .ok l => tagged "ok" (l.map keyOutToSexp)
+  | .error e => keyErrToSexp e
+
+def keyOutEToSexp : Except Key.KeyErr Key.KeyOut → Sexp
+  | .ok r => keyOutToSexp r
+  | .error e => keyErrToSexp e
 
 def optKeyOutToSexp : Option Key.KeyOut → Sexp
   | some r => keyOutToSexp r
@@ -119,11 +127,11 @@ def handleC18 (cmd : String) (args : List Sexp) : Option Sexp :=
   -- (c18.keylist list|tuple|other k…) → (cpp-call python-call)
   | "c18.keylist", (.atom kind :: ks) => do
       let a ← keysArg? kind ks
-      pure (.list [keyOutsToSexp (Key.unravelKeyListCppCall a), keyOutsToSexp (Key.unravelKeyListPyCall a)])
+      pure (.list [keyOutsToSexp (Key.unravelKeyListCppCallE a), keyOutsToSexp (Key.unravelKeyListPyCallE a)])
   -- (c18.keys k…) : unravel_keys(*args) → (cpp-call python-call)
   | "c18.keys", ks => do
       let ks ← ks.mapM keyOfSexp
-      pure (.list [optKeyOutToSexp (Key.unravelKeysCppCall ks), optKeyOutToSexp (Key.unravelKeysPyCall ks)])
+      pure (.list [keyOutEToSexp (Key.unravelKeysCppCallE ks), keyOutEToSexp (Key.unravelKeysPyCallE ks)])
   -- (c18.keyspec k) → (valid leaves…) : the specification vocabulary of the theorems
   | "c18.keyspec", [k] => do
       let k ← keyOfSexp k
